@@ -913,7 +913,7 @@ func Run(c *ev.Ctx) int {
 		proxyExtraEnv = []string{"AWS_REQUEST_CHECKSUM_CALCULATION=when_required"}
 	}
 	c.Set("proxy_extra_env", proxyExtraEnv)
-	n := c.Pick(30, 400)
+	n := c.Pick(30, 1500)
 	rs := c.Rng("programs")
 	type job struct {
 		id   string
